@@ -166,7 +166,25 @@ def strat_floats(tier):
     return dt_cases(_profile(tier, var_bound=1e6, max_depth=4), max_n=10)
 
 
+@st.composite
+def strat_verylong_(draw, tier):
+    """Windows of 33..48 samples on traces of 50..90 samples drawn from very few distinct values (exact ties inside one window)."""
+    p = _profile(tier, max_depth=2, nvars=2)
+    f, vs = draw(F.formulas(p))
+    b = draw(st.integers(33, 48))
+    a = draw(st.sampled_from([0, 0, 1, 5, b]))
+    ops = ['once', 'historically'] + (['eventually', 'always'] if PROPERTY == 'C01' else [])
+    f = ('tun', draw(st.sampled_from(ops)), min(a, b), b, f)
+    if draw(st.booleans()):
+        f = ('un', 'not', f)
+    n = draw(st.integers(50, 90))
+    vals = st.sampled_from([0.0, 1.0, -1.0, 2.0, 5.0, -3.0])
+    tr = {v: draw(st.lists(vals, min_size=n, max_size=n)) for v in vs}
+    return {'formula': f, 'vars': vs, 'trace': tr}
+
+
 LANES = [
+    Lane('verylong', lambda tier: strat_verylong_(tier), check, 150, 2000, std_candidates),
     Lane('floats', strat_floats, check, 1000, 15000, std_candidates),
     Lane('long', strat_long, check, 300, 5000, std_candidates),
     Lane('main', strat_main, check, 3000, 60000, std_candidates),
